@@ -1,11 +1,15 @@
 /-
   C12 — REQ keeps retrying until answered; no hang when retry is disabled.  Theorems about the model
-  `Nng.Req.step`; lemmas in Proofs/ReqSteps.lean, Proofs/ReqInv.lean.  What is proved here are the
-  step-level facts (all states); the history-level invariants Y1/Y3/Y4/ownership are stated below as
-  `*_statement` definitions and are NOT proved: they are checked on the implementation's traces by
-  the C12 judge (Spec/Req.lean), by ASan/LeakSanitizer, and through the model correspondence.
+  `Nng.Req.step`; lemmas in Proofs/ReqSteps.lean, Proofs/ReqInv.lean (id map invariant),
+  Proofs/ReqPlace.lean + ReqPlaceSteps.lean (lists / transmission counter / ownership invariant, 29
+  clauses, `inv2_reachable`) and Proofs/ReqDrained.lean.  Proved here: the step-level facts (all states)
+  and the history-level invariants Y1/Y3/Y4/ownership (all event lists from the initial state).  The
+  same properties are also checked on the implementation's traces by the C12 judge (Spec/Req.lean), by
+  ASan/LeakSanitizer, and through the model correspondence.
 -/
 import NngModel.Proofs.ReqSteps
+import NngModel.Proofs.ReqDrained
+import NngModel.Proofs.ReqAlias
 import NngModel.Spec.Req
 namespace Nng.C12
 open Nng Nng.Proto Nng.Req
@@ -55,31 +59,215 @@ theorem Y2_reply_completes_receive (evs : List Ev) (k : Nat) (ua : UAio) (b : By
   unfold recvCb
   simp [hm, hs, hp, hr]
 
-/-- Y1 (all histories), NOT proved: a context holding an unanswered request that is on the wire, with a
-    resend time, is on the send queue or on the list of a live pipe; and while a request accepted with a
-    resend time is outstanding it is on the retry list and the tick timer is armed. -/
-def Y1_invariant_statement : Prop :=
+/-- a pipe that lists a context is an existing, live pipe (all histories) -/
+theorem live_of_listed (evs : List Ev) (k p : Nat) (h1 : k ∈ ((run {} evs).1.pipe p).ctxs) :
+    p < (run {} evs).1.npipes ∧ ((run {} evs).1.pipe p).closed = false := by
+  have h := inv2_reachable evs
+  constructor
+  · apply Nat.lt_of_not_le; intro hge
+    have : ((run {} evs).1.pipe p).ctxs = [] := (h.out_pipe p hge).2
+    rw [this] at h1; cases h1
+  · cases hc : ((run {} evs).1.pipe p).closed with
+    | false => rfl
+    | true =>
+      have : ((run {} evs).1.pipe p).ctxs = [] := h.closed_pipe p (by simp) hc
+      rw [this] at h1; cases h1
+
+/-- Y1 (all histories): a context holding an unanswered request that is on the wire, with a resend time, is
+    on the send queue or on the list of a live pipe; while a request accepted with a resend time is
+    outstanding it is on the retry list and the tick timer is active; and req0_run_send_queue never leaves
+    a queued request behind while a pipe is ready. -/
+theorem Y1_invariant :
   ∀ evs : List Ev, let s := (run {} evs).1
     (∀ k, (s.ctx k).reqMsg.isSome → (s.ctx k).sendAio = none → 0 < (s.ctx k).retry →
         k ∈ s.sendQueue ∨ ∃ p, p < s.npipes ∧ (s.pipe p).closed = false ∧ k ∈ (s.pipe p).ctxs) ∧
     (∀ k, (s.ctx k).reqMsg.isSome → 0 < (s.ctx k).retryAtSend → k ∈ s.retryQueue ∧ s.retryActive = true) ∧
-    (s.sendQueue = [] ∨ s.readyPipes = [])
+    (s.sendQueue = [] ∨ s.readyPipes = []) := by
+  intro evs
+  have h := inv2_reachable evs
+  refine ⟨fun k hr _ _ => ?_, fun k hr ha => ⟨h.rq_place k (by simp) hr ha, h.rq_active k hr ha⟩, drained_reachable evs⟩
+  rcases h.place k (by simp) hr with h1 | ⟨p, h1⟩
+  · exact Or.inl h1
+  · exact Or.inr ⟨p, (live_of_listed evs k p h1).1, (live_of_listed evs k p h1).2, h1⟩
 
-/-- Y3 (all histories), NOT proved: a request whose context never had a resend time since it was
-    accepted is handed to a transport at most once -/
-def Y3_at_most_one_transmission_statement : Prop :=
-  ∀ evs : List Ev, ∀ k, ((run {} evs).1.ctx k).everRetry = false → ((run {} evs).1.ctx k).wireCount ≤ 1
+/-- Y1 (all histories), the place of a request, without side conditions: every context that holds a
+    request (sent or still parked, with or without a resend time) is on the send queue or on the list of
+    exactly one live pipe; everything on the send queue holds a request. -/
+theorem Y1_request_has_a_place (evs : List Ev) (k : Nat) (hr : ((run {} evs).1.ctx k).reqMsg.isSome) :
+    k ∈ (run {} evs).1.sendQueue ∨
+    ∃ p, p < (run {} evs).1.npipes ∧ ((run {} evs).1.pipe p).closed = false ∧ k ∈ ((run {} evs).1.pipe p).ctxs ∧
+      ∀ q, k ∈ ((run {} evs).1.pipe q).ctxs → q = p := by
+  have h := inv2_reachable evs
+  rcases h.place k (by simp) hr with h1 | ⟨p, h1⟩
+  · exact Or.inl h1
+  · exact Or.inr ⟨p, (live_of_listed evs k p h1).1, (live_of_listed evs k p h1).2, h1, fun q hq => h.pc_uniq q p k hq h1⟩
 
-/-- Y4 (all histories), NOT proved: all transmissions of one request carry the same body (the id is the
-    same by construction: `wireIndex` is a function of the internal id) -/
-def Y4_same_body_statement : Prop :=
-  ∀ evs : List Ev, ∀ x y, x ∈ (run {} evs).1.wire → y ∈ (run {} evs).1.wire → x.2.1 = y.2.1 → x.2.2 = y.2.2
+/-- Y1 (all histories), no duplicates and disjointness: the send queue, the retry list and every pipe's
+    context list are duplicate free; a context is on at most one pipe's list; closed pipes and pipe
+    slots never used list nothing; a ready pipe is live and idle; only contexts holding a request are
+    on the send queue; while the retry machinery is active and the socket open the tick timer is armed
+    (or parked for good by an infinite `req:resend-tick`). -/
+theorem Y1_lists_wellformed (evs : List Ev) :
+    let s := (run {} evs).1
+    s.sendQueue.Nodup ∧ s.retryQueue.Nodup ∧ s.readyPipes.Nodup ∧ (∀ p, (s.pipe p).ctxs.Nodup) ∧
+    (∀ p q k, k ∈ (s.pipe p).ctxs → k ∈ (s.pipe q).ctxs → p = q) ∧
+    (∀ p, (s.pipe p).closed = true ∨ s.npipes ≤ p → (s.pipe p).ctxs = []) ∧
+    (∀ p, p ∈ s.readyPipes → p < s.npipes ∧ (s.pipe p).closed = false ∧ (s.pipe p).busy = none) ∧
+    (∀ k, k ∈ s.sendQueue → (s.ctx k).reqMsg.isSome) ∧
+    (s.sClosed = false → s.retryActive = true → s.tickAt.isSome ∨ s.tickNever = true) := by
+  have h := inv2_reachable evs
+  refine ⟨h.sq_nodup, h.rq_nodup, h.ready_nodup, h.pc_nodup, h.pc_uniq, fun p hp => ?_, h.ready_ok, h.sq_req, fun a b => ?_⟩
+  · rcases hp with hp | hp
+    · exact h.closed_pipe p (by simp) hp
+    · exact (h.out_pipe p hp).2
+  · rcases h.timer a b with t | t
+    · exact Or.inl t
+    · exact Or.inr t
 
-/-- ownership (feeds C03), NOT proved: in every history no retained request is released twice or used
-    after its release, and the context's reference ends exactly once (freed or given back) -/
-def ownership_statement : Prop :=
+/-- Y1, "exactly one place" is too strong for req.c: after the resend timer found a request due while
+    every pipe was busy, the context is on the send queue AND still on the list of the pipe that carried
+    the previous transmission (`req0_retry_cb` appends to `send_queue` without touching `pipe_node`; the
+    next `req0_run_send_queue` moves it).  So the send queue and the pipe lists are not disjoint; what
+    holds is `Y1_request_has_a_place` (at least one place, at most one pipe). -/
+theorem Y1_send_queue_and_pipe_list_overlap :
+    ∃ evs : List Ev, ∃ k p, k ∈ (run {} evs).1.sendQueue ∧ k ∈ ((run {} evs).1.pipe p).ctxs ∧
+      ((run {} evs).1.pipe p).closed = false ∧ ((run {} evs).1.ctx k).reqMsg.isSome :=
+  ⟨[.openSock "req" false, .setopt none "req:resend-time" "ms" 100, .pipeAdd 0x31,
+    .send none 0 ⟨[], [1]⟩ .inf, .advance 1001], 0, 0, by decide⟩
+
+/-- Y3 (all histories): a request whose context never had a resend time since it was accepted is handed
+    to a transport at most once -/
+theorem Y3_at_most_one_transmission :
+  ∀ evs : List Ev, ∀ k, ((run {} evs).1.ctx k).everRetry = false → ((run {} evs).1.ctx k).wireCount ≤ 1 :=
+  fun evs k he => (inv2_reachable evs).cnt1 k he
+
+/-- Y4 (all histories): all transmissions of one request carry the same body, namely the body of the
+    retained request message -/
+theorem Y4_same_body :
+  ∀ evs : List Ev, ∀ x y, x ∈ (run {} evs).1.wire → y ∈ (run {} evs).1.wire → x.2.1 = y.2.1 → x.2.2 = y.2.2 := by
+  intro evs x y hx hy e
+  have h := inv2_reachable evs
+  obtain ⟨_, _, bx⟩ := h.wire_body x hx
+  obtain ⟨_, _, by'⟩ := h.wire_body y hy
+  have bx' : ((run {} evs).1.msgs x.2.1).body = x.2.2 := bx
+  have by'' : ((run {} evs).1.msgs y.2.1).body = y.2.2 := by'
+  rw [← bx', ← by'', e]
+
+/-- Y4 (all histories): every transmission logged is of a request id that was allocated, and carries the
+    body of that request's retained message -/
+theorem Y4_transmission_is_retained_body (evs : List Ev) (x : Nat × Nat × Bytes) (hx : x ∈ (run {} evs).1.wire) :
+    x.2.1 ≠ 0 ∧ x.2.1 ≤ (run {} evs).1.nalloc ∧ ((run {} evs).1.msgs x.2.1).body = x.2.2 := by
+  obtain ⟨a, b, c⟩ := (inv2_reachable evs).wire_body x hx
+  exact ⟨b, a, c⟩
+
+/-- Y4, same id (all histories): once a request id has a wire name (the 4-byte header is
+    `wireHdr n` = big-endian `idMin + n`), it keeps that name through every later event: `alias` only
+    grows at its end -/
+theorem Y4_wire_name_is_stable (evs evs' : List Ev) (i n : Nat)
+    (h : (run {} evs).1.alias.idxOf? i = some n) :
+    (run (run {} evs).1 evs').1.alias.idxOf? i = some n :=
+  (aext_run evs' _).stable h
+
+/-- Y4, same id: every message req0_run_send_queue hands to a transport carries as header the wire name
+    that the context's request id has in the resulting state — with `Y4_wire_name_is_stable`, the header
+    of the first transmission of that request -/
+theorem Y4_header_is_wire_name (s : State) (k p q : Nat) (m : WMsg) (h : Out.psend q m ∈ (sendOne s k p).2) :
+    ∃ n, (sendOne s k p).1.alias.idxOf? (s.ctx k).requestId = some n ∧ m.hdr = wireHdr n :=
+  (sendOne_alias s k p).2 q m h
+
+/-- ownership (feeds C03), all histories, including `setopt req:resend-time` at any point (the theorem
+    defect F5 violated): no retained request is released twice, used after its release or released by a
+    transport that holds no reference, and the context's reference ends at most once (freed or handed
+    back to the sender) -/
+theorem ownership :
   ∀ evs : List Ev, (run {} evs).1.bad = none ∧
-    ∀ h, ((run {} evs).1.msgs h).ctxFrees + (if ((run {} evs).1.msgs h).returned then 1 else 0) ≤ 1
+    ∀ h, ((run {} evs).1.msgs h).ctxFrees + (if ((run {} evs).1.msgs h).returned then 1 else 0) ≤ 1 := by
+  intro evs
+  have hi := inv2_reachable evs
+  refine ⟨hi.nobad, fun h => ?_⟩
+  have := (hi.once h).1
+  have this' : ((run {} evs).1.msgs h).ctxFrees + ((run {} evs).1.msgs h).returned.toNat ≤ 1 := this
+  cases hr : ((run {} evs).1.msgs h).returned <;> simp [hr] at this' ⊢ <;> omega
+
+/-- ownership, the counter is 1 while the request is outstanding: the context's reference to its retained
+    request is live, has not been released or handed back, the handle is the request id, and no other
+    context holds it -/
+theorem ownership_while_outstanding (evs : List Ev) (k h : Nat) (hm : ((run {} evs).1.ctx k).reqMsg = some h) :
+    ((run {} evs).1.msgs h).ctxRef = true ∧ ((run {} evs).1.msgs h).ctxFrees = 0 ∧
+    ((run {} evs).1.msgs h).returned = false ∧ ((run {} evs).1.ctx k).requestId = h ∧
+    ∀ k', ((run {} evs).1.ctx k').reqMsg = some h → k' = k := by
+  have hi := inv2_reachable evs
+  have hr := hi.held k h hm
+  obtain ⟨a, b⟩ := (hi.once h).2 hr
+  exact ⟨hr, a, b, (hi.req_id k h hm).1, fun k' hk' => hi.req_uniq k' k h hk' hm⟩
+
+/-- ownership, the counter is 0 once the request is gone (no leak): a live context reference exists only
+    while some context holds the request; and the transports' references are exactly the sends in flight -/
+theorem ownership_after_release (evs : List Ev) (h : Nat) :
+    (((run {} evs).1.msgs h).ctxRef = true → ∃ k, ((run {} evs).1.ctx k).reqMsg = some h) ∧
+    ((run {} evs).1.msgs h).tranRefs = busyCnt (run {} evs).1.pipe (run {} evs).1.npipes h :=
+  ⟨(inv2_reachable evs).owner h, (inv2_reachable evs).tran h⟩
+
+/-- non-vacuity of the ownership theorems: F5's scenario (resend time switched off while a request is
+    outstanding, then the socket is closed) ends with the one reference released exactly once -/
+example :
+    let evs : List Ev := [.openSock "req" false, .pipeAdd 0x31, .send none 0 ⟨[], [1]⟩ .nb,
+                          .setopt none "req:resend-time" "ms" (-1)]
+    (((run {} evs).1.ctx 0).reqMsg = some 1 ∧ ((run {} evs).1.msgs 1).ctxRef = true ∧
+      ((run {} evs).1.msgs 1).tranRefs = 1) ∧
+    (((run {} (evs ++ [.close])).1.msgs 1).ctxFrees = 1 ∧ ((run {} (evs ++ [.close])).1.msgs 1).ctxRef = false ∧
+      ((run {} (evs ++ [.close])).1.msgs 1).tranRefs = 0) := by
+  decide
+
+/-- non-vacuity of Y3: resending disabled, one transmission, the connection is lost, nothing is resent -/
+example :
+    let evs : List Ev := [.openSock "req" false, .setopt none "req:resend-time" "ms" (-1), .pipeAdd 0x31, .pipeAdd 0x31,
+                          .send none 0 ⟨[], [1]⟩ .inf]
+    ((run {} evs).1.ctx 0).everRetry = false ∧ ((run {} evs).1.ctx 0).wireCount = 1 ∧
+    (step (run {} evs).1 (.pipeDrop 0)).2 = [.rv 0, .pclosed 0] := by
+  decide
+
+/-- non-vacuity of Y4: a retransmission after the resend time is in the log with the same id and body -/
+example :
+    let evs : List Ev := [.openSock "req" false, .setopt none "req:resend-time" "ms" 100, .pipeAdd 0x31,
+                          .send none 0 ⟨[], [1]⟩ .inf, .sendDone 0 0, .advance 1001]
+    (run {} evs).1.wire = [(0, 1, [1]), (0, 1, [1])] := by
+  decide
+
+/-- request bodies submitted in a history -/
+def sendBodies (evs : List Ev) : List Bytes :=
+  evs.filterMap fun e => match e with | .send _ _ m _ => some m.body | _ => none
+
+/-- what the check's generator guarantees and the C12 judge relies on: no operation is aborted with
+    result 0 (`nni_aio_abort(aio, 0)`, a harness-only operation), request bodies are pairwise distinct -/
+def JudgeHyps (evs : List Ev) : Prop := (∀ a, Ev.abort a 0 ∉ evs) ∧ (sendBodies evs).Nodup
+
+/-- the unconditional statement "the C12 judge accepts every trace of the model" is FALSE: after
+    `abort <recv aio> 0` the model (and req.c: replayed, same outputs) completes the receive with result 0 and
+    no message and cancels the request, while the judge only treats non-zero completions as failures and
+    still expects ECONNRESET for that receive when the connection is lost -/
+theorem judge12_rejects_abort_with_zero :
+    ¬ ∀ evs : List Ev, Nng.ReqSpec.judge12 (evs.zip (run {} evs).2) = none := by
+  intro h
+  have := h [.openSock "req" false, .setopt none "req:resend-time" "ms" (-1), .pipeAdd 0x31,
+             .send none 0 ⟨[], [1]⟩ .inf, .recv none 1 .inf, .abort 1 0, .pipeDrop 0]
+  revert this
+  decide
+
+/-- NOT proved: under `JudgeHyps` the C12 judge accepts every trace of the model.  It needs a simulation
+    relation between the judge's bookkeeping (`ReqSpec.J`) and the model state, on top of `inv2_reachable`;
+    further generator guarantees may be needed as hypotheses (`advance` never lands on a timer deadline
+    and never crosses two of them).  The judge is run on the implementation's traces and, through the
+    correspondence, on the model's. -/
+def judge_accepts_model_statement : Prop :=
+  ∀ evs : List Ev, JudgeHyps evs → Nng.ReqSpec.judge12 (evs.zip (run {} evs).2) = none
+
+/-- the hypotheses are satisfiable by a non-trivial history, which the judge accepts -/
+example :
+    let evs : List Ev := [.openSock "req" false, .pipeAdd 0x31, .pipeAdd 0x31, .send none 0 ⟨[], [1]⟩ .inf,
+                          .recv none 1 .inf, .pipeDrop 0, .recvDone 1 (.ok (beEncode 4 idMin ++ [7]))]
+    JudgeHyps evs ∧ Nng.ReqSpec.judge12 (evs.zip (run {} evs).2) = none := by
+  refine ⟨⟨fun a h => by simp at h, by decide⟩, by decide⟩
 
 /-- non-vacuity: resending disabled, request on the wire, receive waiting; the connection goes away and
     the receive fails with ECONNRESET -/
